@@ -332,11 +332,12 @@ pub struct BStats {
     pub getters: [u64; 38],
     pub try_getters: [u64; 38],
     pub vectored_slices: u64,
+    pub inner_direct: u64,
     pub classes: [u64; 8],
 }
 impl Default for BStats {
     fn default() -> Self {
-        BStats { ops: [0; 32], panics: 0, struct_walks: 0, leaf_kinds: [0; 14], getters: [0; 38], try_getters: [0; 38], vectored_slices: 0, classes: [0; 8] }
+        BStats { ops: [0; 32], panics: 0, struct_walks: 0, leaf_kinds: [0; 14], getters: [0; 38], try_getters: [0; 38], vectored_slices: 0, inner_direct: 0, classes: [0; 8] }
     }
 }
 pub const CLASS_NAMES: [&str; 8] = [
@@ -353,7 +354,7 @@ pub const CLASS_NAMES: [&str; 8] = [
 pub const OP_NAMES: [&str; 21] = [
     "observe", "advance", "chunks_vectored", "copy_to_slice", "try_copy_to_slice", "copy_to_bytes", "get_X", "try_get_X", "wrap take(n)", "wrap chain(self, leaf)",
     "wrap chain(leaf, self)", "set_limit", "reader().read", "reader().fill_buf+consume", "reader().read_to_end", "into_iter().collect", "wrap &mut", "wrap Box",
-    "into_iter partial", "take(n).get_mut().advance", "chain.first_mut/last_mut advance",
+    "into_iter partial", "inner buffer advanced through get_mut/first_mut/last_mut", "inner buffer advanced through get_mut/first_mut/last_mut (2)",
 ];
 
 fn sel_n(a: u32, chunk: usize, rem: usize) -> usize {
@@ -616,6 +617,11 @@ impl<'a> BInterp<'a> {
                                 self.st.vectored_slices += c as u64;
                                 if cat.len() > rem || cat[..] != rest[..cat.len()] {
                                     bad.push(("C09", "chunks_vectored-not-a-prefix", format!("{} slices, {} bytes, not a prefix of the remaining {} bytes", c, cat.len(), rem)));
+                                    // more bytes than the view has, through a tree that contains a take(n): the adapter exposes
+                                    // bytes beyond min(n, remaining) - also the first clause of C12
+                                    if cat.len() > rem && has_take(root) {
+                                        bad.push(("C12", "take-exposes-bytes-beyond-its-limit", format!("chunks_vectored handed out {} bytes, the view has {}", cat.len(), rem)));
+                                    }
                                 }
                                 if rem > 0 && k > 0 && !nonempty {
                                     bad.push(("C09", "chunks_vectored-no-non-empty-slice", format!("returned {} slices, none non-empty, {} bytes remain", c, rem)));
@@ -929,7 +935,39 @@ impl<'a> BInterp<'a> {
                 }
                 self.root = Some(it.into_inner());
             }
-            19 | 20 => {}
+            19 | 20 => {
+                // reach into the outermost adapter (get_mut / first_mut / last_mut) and advance an inner buffer directly: the
+                // adapter must go on exposing min(n, remaining) of whatever its inner buffer now is (C12)
+                fn go(node: &mut Node, m: &mut MNode, a: u32, b: u32) -> Option<(String, bool)> {
+                    match (node, m) {
+                        (Node::Boxed(bx), MNode::Wrap(mi)) => go(&mut **bx, mi, a, b),
+                        (Node::MutRef(r), MNode::Wrap(mi)) => go(r.inner_mut(), mi, a, b),
+                        (Node::Take(t), MNode::Take(mi, _)) => {
+                            let n = (a as usize) % (mi.remaining().min(40) + 1);
+                            let r = catch_unwind(AssertUnwindSafe(|| t.get_mut().advance(n)));
+                            mi.advance(n);
+                            Some((format!("Take::get_mut().advance({})", n), r.is_err()))
+                        }
+                        (Node::Chain(c), MNode::Chain(ma, mb)) => {
+                            let (mi, first) = if b % 2 == 0 { (ma, true) } else { (mb, false) };
+                            let n = (a as usize) % (mi.remaining().min(40) + 1);
+                            let r = catch_unwind(AssertUnwindSafe(|| if first { c.first_mut().advance(n) } else { c.last_mut().advance(n) }));
+                            mi.advance(n);
+                            Some((format!("Chain::{}_mut().advance({})", if first { "first" } else { "last" }, n), r.is_err()))
+                        }
+                        _ => None,
+                    }
+                }
+                let root = self.root.as_mut().unwrap();
+                if let Some((what, panicked)) = go(root, &mut self.model, a, b) {
+                    btr!(self, "{}", what);
+                    self.st.inner_direct += 1;
+                    if panicked {
+                        self.v("C09", "unexpected-panic", format!("{} panicked although the inner buffer has that many bytes", what));
+                        self.ended = true;
+                    }
+                }
+            }
             _ => {}
         }
         if !self.ended {
